@@ -3326,6 +3326,14 @@ func (e *cborEncDriverBytes) encStringBytesS(bb byte, v string) {
 			i2 := i + n
 			if i2 >= vlen {
 				i2 = vlen
+			} else if bb != cborBaseBytes {
+
+				for i3 := i2; i3 > i; i3-- {
+					if utf8.RuneStart(v[i3]) {
+						i2 = i3
+						break
+					}
+				}
 			}
 			v2 := v[i:i2]
 			e.encLen(bb, len(v2))
@@ -7394,6 +7402,14 @@ func (e *cborEncDriverIO) encStringBytesS(bb byte, v string) {
 			i2 := i + n
 			if i2 >= vlen {
 				i2 = vlen
+			} else if bb != cborBaseBytes {
+
+				for i3 := i2; i3 > i; i3-- {
+					if utf8.RuneStart(v[i3]) {
+						i2 = i3
+						break
+					}
+				}
 			}
 			v2 := v[i:i2]
 			e.encLen(bb, len(v2))
